@@ -49,8 +49,15 @@ def run(c):
     cases.append(dict(kind="gen", seed=rng.getrandbits(40), count=4000 if c.thorough else 800, depth=6))
     shapes = ["plain", "mapped", "flatmapped", "evenodd", "tailcall2"]
     for n in [10, 1000, 30000]:
-        for shape in shapes:
+        for shape in shapes + ["foldright"]:
             cases.append(dict(kind="chain", n=n + (1 if shape == "evenodd" else 0), shape=shape))
+    # one Eval extended several times after 0..20 chained continuations (Done / Call / TailCall bases)
+    for k in range(0, 21):
+        for shape in ("done", "call", "tail"):
+            cases.append(dict(kind="share", n=k, shape=shape))
+    # run-once when the single run panics
+    for what in ("lazy.Call", "lazy.TailCall", "lazy.Memoize", "fp.Memoize", "lazy.Func1", "lazy.Call.Map"):
+        cases.append(dict(kind="paniconce", what=what))
     # the deep chains run in a process of their own: exhausting the Go stack is fatal and cannot be recovered,
     # and on a tail-recursive program it is exactly the failure the property excludes
     deep = [dict(kind="chain", n=n + (1 if shape == "evenodd" else 0), shape=shape)
